@@ -1,11 +1,11 @@
-use cosmwasm_std::{DepsMut, Env, Response, StdError, StdResult, SubMsg, Uint128};
+use cosmwasm_std::{Addr, DepsMut, Env, Response, StdError, StdResult, SubMsg, Uint128};
 
 use crate::{
     contract::INCREASE_POSITION_REPLY_ID,
     handle::internal_increase_position,
     messages::{
         execute_insurance_fund_withdrawal, execute_transfer, execute_transfer_from,
-        execute_transfer_to_insurance_fund, transfer_fees, withdraw,
+        execute_transfer_to_insurance_fund, transfer_fees, withdraw, withdraw_all,
     },
     querier::query_vamm_state,
     query::query_margin_ratio,
@@ -587,21 +587,21 @@ pub fn liquidate_reply(
         Uint128::zero()
     };
 
-    // any remaining margin goes to the insurance contract
+    // any remaining margin goes to the insurance contract, the fee to the liquidator; both leave
+    // the vault, so its shortfall is computed on their sum
+    let mut payments: Vec<(&Addr, Uint128)> = vec![];
     if !remain_margin.margin.is_zero() {
-        msgs.push(
-            execute_transfer(deps.storage, &config.insurance_fund, remain_margin.margin).unwrap(),
-        );
+        payments.push((&config.insurance_fund, remain_margin.margin));
     }
+    payments.push((&liquidator, liquidation_fee));
 
     msgs.append(
-        &mut withdraw(
+        &mut withdraw_all(
             deps.as_ref(),
             env.clone(),
             &mut state,
-            &liquidator,
-            config.eligible_collateral,
-            liquidation_fee,
+            config.eligible_collateral.clone(),
+            &payments,
             pre_paid_shortfall,
         )
         .unwrap(),
@@ -700,19 +700,17 @@ pub fn partial_liquidation_reply(
     let mut messages: Vec<SubMsg> = vec![];
 
     if !liquidation_fee.is_zero() {
-        messages
-            .push(execute_transfer(deps.storage, &config.insurance_fund, liquidation_fee).unwrap());
-
-        // calculate token balance that should be remaining once
-        // insurance fees have been paid
+        // both halves of the penalty leave the vault, so its shortfall is computed on their sum
         messages.append(
-            &mut withdraw(
+            &mut withdraw_all(
                 deps.as_ref(),
                 env.clone(),
                 &mut state,
-                &liquidator,
-                config.eligible_collateral,
-                liquidation_fee,
+                config.eligible_collateral.clone(),
+                &[
+                    (&config.insurance_fund, liquidation_fee),
+                    (&liquidator, liquidation_fee),
+                ],
                 Uint128::zero(),
             )
             .unwrap(),
